@@ -38,7 +38,26 @@ def plant(seed, i):
            expected: 'refuse' | 'remove')"""
     rng = np.random.default_rng([seed, i, 2020])
     kind = ["few-constraints", "non-spanning", "disconnected", "single-element", "single-direction-point",
-            "combo"][i % 6]
+            "combo", "random-sub-survey"][i % 7]
+    if kind == "random-sub-survey":
+        # an error-free survey with ~45 % of its observations dropped at random and no approximate coordinates for
+        # the unknown points: possibly determined, possibly not -- whatever it is, the four algorithms must agree
+        # and nothing non-finite may be printed
+        dim = int(rng.choice([2, 3]))
+        feats = tuple(f for f, pr in (("angles", 0.5), ("azimuths", 0.4), ("hdiff", 0.5), ("vectors", 0.3)) if rng.uniform() < pr)
+        net = netgen.gen_net(rng, dim=dim, datum="fixed", noise=True, features=feats)
+        for cl in net.clusters:
+            if cl.kind in ("obs", "hdiff"):
+                keep = [k for k in range(len(cl.obs)) if rng.uniform() > 0.45]
+                cl.obs = [cl.obs[k] for k in keep]
+                cl.cov = None
+        net.clusters = [c for c in net.clusters if c.obs or c.vecs or c.cpoints]
+        for q in net.points.values():
+            if q.xy == "free":
+                q.give_xy = False
+            if q.z == "free":
+                q.give_z = False
+        return kind, net, None, set(), "unknown"
     if kind == "few-constraints":
         dim = int(rng.choice([1, 2, 3]))
         net = netgen.gen_net(rng, dim=dim, datum="free", noise=True)
@@ -117,7 +136,8 @@ def run(tier, seed, only=None):
     ck = Check("C20", tier, seed,
                "generated networks with planted rank deficiencies {too few constrained coordinates, constraints that do "
                "not span the defect (no height constrained in 3D), disconnected free part next to a fixed network, "
-               "points with a single determining element (one distance / one direction), combinations} x 4 algorithms; "
+               "points with a single determining element (one distance / one direction), combinations, random sub-surveys "
+               "without approximate coordinates} x 4 algorithms; "
                "class = (planted kind, network kind, algorithm, outcome)")
     n = tier_n(tier, 48, 1200)
     fr = netgen.Frame()
